@@ -15,10 +15,12 @@ package frugal
 
 import (
 	"bytes"
+	"context"
 	"encoding/binary"
 	"errors"
 	"fmt"
 	"io"
+	"math"
 
 	"github.com/apache/thrift/lib/go/thrift"
 )
@@ -103,6 +105,48 @@ func (f *FProtocolFactory) GetProtocol(tr thrift.TTransport) *FProtocol {
 type FProtocol struct {
 	thrift.TProtocol
 	ephemeralProperties map[interface{}]interface{}
+}
+
+// checkContainerSize rejects element counts that no Thrift container can have.
+// The wire format defines container sizes as int32; thrift's JSON protocol
+// validates only the low 32 bits of the number it read and hands the full
+// value to generated code, which sizes its allocation with it.
+func checkContainerSize(size int, err error) error {
+	if err != nil {
+		return err
+	}
+	if size < 0 || size > math.MaxInt32 {
+		return thrift.NewTProtocolExceptionWithType(thrift.SIZE_LIMIT,
+			fmt.Errorf("frugal: invalid container size %d", size))
+	}
+	return nil
+}
+
+// ReadListBegin reads the start of a list, rejecting sizes outside int32.
+func (f *FProtocol) ReadListBegin(ctx context.Context) (thrift.TType, int, error) {
+	elemType, size, err := f.TProtocol.ReadListBegin(ctx)
+	if err = checkContainerSize(size, err); err != nil {
+		return elemType, 0, err
+	}
+	return elemType, size, nil
+}
+
+// ReadSetBegin reads the start of a set, rejecting sizes outside int32.
+func (f *FProtocol) ReadSetBegin(ctx context.Context) (thrift.TType, int, error) {
+	elemType, size, err := f.TProtocol.ReadSetBegin(ctx)
+	if err = checkContainerSize(size, err); err != nil {
+		return elemType, 0, err
+	}
+	return elemType, size, nil
+}
+
+// ReadMapBegin reads the start of a map, rejecting sizes outside int32.
+func (f *FProtocol) ReadMapBegin(ctx context.Context) (thrift.TType, thrift.TType, int, error) {
+	keyType, valueType, size, err := f.TProtocol.ReadMapBegin(ctx)
+	if err = checkContainerSize(size, err); err != nil {
+		return keyType, valueType, 0, err
+	}
+	return keyType, valueType, size, nil
 }
 
 // WriteRequestHeader writes the request headers set on the given Context
